@@ -1040,6 +1040,40 @@ fn check_csg(cx: &mut Cx, rng: &mut Rng, name: &str, used: &mut Vec<&'static str
     } else {
         (0..n_args).map(|_| child(rng, false, used)).collect()
     };
+    // operands that repeat or contain other operands of the same list (the
+    // same tree handles): a shape clipped twice by the same bound, a hole
+    // cut twice, a list entry given twice, an empty list as an operand.
+    // Boolean algebra does not care; rewrites on the min/max graph might
+    let mut args = args;
+    if !wide && !args.is_empty() && name != "Inverse" && rng.chance(0.35) {
+        cx.st.inc("csg_cases_with_repeated_or_nested_operands");
+        let pick = |rng: &mut Rng, args: &Vec<Shape>| {
+            let s = &args[rng.below(args.len())];
+            (s.tree.clone(), s.desc.clone())
+        };
+        for _ in 0..1 + rng.below(2) {
+            let (a, ad) = pick(rng, &args);
+            let (b, bd) = pick(rng, &args);
+            let derived = match rng.below(7) {
+                0 => Shape { tree: a, desc: ad },
+                1 => Shape { tree: fs::Union { input: vec![a, b] }.into(), desc: json!({"Union": {"input": [ad, bd]}}) },
+                2 => Shape { tree: fs::Intersection { input: vec![a, b] }.into(), desc: json!({"Intersection": {"input": [ad, bd]}}) },
+                3 => Shape { tree: fs::Difference { shape: a, cutout: b }.into(), desc: json!({"Difference": {"shape": ad, "cutout": bd}}) },
+                4 => Shape { tree: fs::Union { input: vec![] }.into(), desc: json!({"Union": {"input": []}}) },
+                5 => Shape { tree: fs::Intersection { input: vec![] }.into(), desc: json!({"Intersection": {"input": []}}) },
+                _ => Shape { tree: fs::Inverse { shape: a }.into(), desc: json!({"Inverse": {"shape": ad}}) },
+            };
+            if name == "Difference" {
+                // the derived operand replaces the shape or the cutout
+                let k = rng.below(2);
+                args[k] = derived;
+            } else {
+                let at = rng.below(args.len() + 1);
+                args.insert(at, derived);
+            }
+        }
+    }
+    let n_args = args.len();
     let trees: Vec<Tree> = args.iter().map(|s| s.tree.clone()).collect();
     let descs: Vec<Value> = args.iter().map(|s| s.desc.clone()).collect();
     let (tree, desc): (Tree, Value) = match name {
